@@ -57,7 +57,10 @@ def jobs_exact(ctx, mult=1):
         n = ctx.pick(44, 320) * mult
         lens = ctx.pick([10, 20, 30], [30, 60, 120])
         for i in range(n):
-            jobs.append({"cls": cls, "cfg": {"track": False, "reuse": i % 3 == 0}, "len": lens[i % len(lens)]})
+            # every other history: a third of the solution() calls ask about a symbolic value (both sides go through the replacements),
+            # a fifth of the adds contradict syntactically what is held, often inside a multi-constraint add()
+            jobs.append({"cls": cls, "cfg": {"track": False, "reuse": i % 3 == 0}, "len": lens[i % len(lens)],
+                         "gen": {"symv": 0.35, "contra": 0.2} if i % 2 else {}})
     return jobs
 
 
